@@ -25,6 +25,8 @@ def run(ctx):
     from shapepy import EmptyShape, WholeShape, Primitive
     rng, drv = ctx.rng, ctx.drv
     E, W = EmptyShape(), WholeShape()
+    from harness import degen
+    degen.evaluate(ctx, "subset")      # deterministic non-transversal corpus (findings K2-*)
     n = 60 if ctx.quick else 2500
     for it in range(n):
         if it % 3 == 0:
@@ -38,7 +40,13 @@ def run(ctx):
         ta, tb = shapes.enc_desc(da), shapes.enc_desc(db)
         if da[0] not in "EW" and db[0] not in "EW" and drv.ask(f"transversal {ta} {tb}") != "T":
             ctx.count("skipped-nontransversal"); continue
-        desc = {"A": core.jsonable(da), "B": core.jsonable(db)}
+        ha = hb = "fresh"
+        if da[0] not in "EW":
+            A, ha = shapes.vary_history(rng, A, da)
+        if db[0] not in "EW":
+            B, hb = shapes.vary_history(rng, B, db)
+        ctx.count("history:" + ha); ctx.count("history:" + hb)
+        desc = {"A": core.jsonable(da), "B": core.jsonable(db), "history": [ha, hb]}
         ctx.sample(desc, limit=2)
         exp = drv.ask(f"subset {tb} {ta}") == "ok"
         try:
